@@ -188,6 +188,8 @@ def gen_case(rnd, tier, index):
     knobs['gadget'] = 0.1
     spec = wbgen.generate(rnd, knobs)
     cfg = draw_cfg(rnd, spec, tier)
+    if cfg.get('origin') != 'xlsx' and rnd.random() < 0.12:
+        wbgen.add_table_gadget(rnd, spec)     # structured references
     n_ops = rnd.choice((3, 5, 8, 12, 20, 30))
     ops = gen_ops(rnd, spec, cfg, n_ops,
                   restart_rate=rnd.choice((0, 0, 0.03, 0.08)),
